@@ -2,6 +2,7 @@ package main
 
 import (
 	"go/ast"
+	"strings"
 )
 
 // timeoutFacts extracts how the clients write their timeout header, the facts
@@ -160,6 +161,72 @@ func timeoutFacts(e *env, p func(format string, args ...any)) {
 	if callsElsewhere > 0 {
 		insideOnce = false
 	}
+	// connectClient.NewConn clears the unary Content-Encoding header before the marshaler decides
+	encCleared := false
+	if fd, ok := e.funcs["connectClient.NewConn"]; ok {
+		ast.Inspect(fd.Body, func(n ast.Node) bool {
+			ce, ok := n.(*ast.CallExpr)
+			if !ok || len(ce.Args) != 2 {
+				return true
+			}
+			if id, ok := ce.Fun.(*ast.Ident); !ok || id.Name != "delete" {
+				return true
+			}
+			if id, ok := ce.Args[1].(*ast.Ident); ok && id.Name == "connectUnaryHeaderCompression" {
+				encCleared = true
+			}
+			return true
+		})
+	}
+	// NewClient: the function literal assigned to client.callUnary starts by stamping the
+	// request's spec, as a top-level statement (not under a condition)
+	stamps := false
+	if fd, ok := e.funcs["NewClient"]; ok {
+		ast.Inspect(fd.Body, func(n ast.Node) bool {
+			as, ok := n.(*ast.AssignStmt)
+			if !ok || len(as.Lhs) != 1 || len(as.Rhs) != 1 {
+				return true
+			}
+			se, ok := as.Lhs[0].(*ast.SelectorExpr)
+			if !ok || se.Sel.Name != "callUnary" {
+				return true
+			}
+			fl, ok := as.Rhs[0].(*ast.FuncLit)
+			if !ok {
+				return true
+			}
+			for _, st := range fl.Body.List {
+				a2, ok := st.(*ast.AssignStmt)
+				if !ok || len(a2.Lhs) != 1 {
+					continue
+				}
+				if s2, ok := a2.Lhs[0].(*ast.SelectorExpr); ok && s2.Sel.Name == "spec" {
+					stamps = true
+				}
+			}
+			return true
+		})
+	} else {
+		e.fail("NewClient not found")
+	}
+	// the declared Content-Length is never consulted: no selector .ContentLength and no
+	// "Content-Length" string literal anywhere in the library's (non-test, non-hook) sources
+	clUses := 0
+	for _, f := range e.files {
+		ast.Inspect(f, func(n ast.Node) bool {
+			switch x := n.(type) {
+			case *ast.SelectorExpr:
+				if x.Sel.Name == "ContentLength" {
+					clUses++
+				}
+			case *ast.BasicLit:
+				if strings.EqualFold(strings.Trim(x.Value, "\"`"), "content-length") {
+					clUses++
+				}
+			}
+			return true
+		})
+	}
 	b := func(v bool) string {
 		if v {
 			return "true"
@@ -169,5 +236,8 @@ func timeoutFacts(e *env, p func(format string, args ...any)) {
 	p("\n(* ---- the clients' timeout header (structural, from the AST of the two NewConn and of ensureRequestMade) ---- *)\n")
 	p("Definition client_timeout_cleared_in_new_conn : bool := %s. (* delete(header, <timeout header>) at the top level of both NewConn: %d of 2 *)\n", b(cleared), nDeletes)
 	p("Definition client_timeout_set_only_at_send : bool := %s. (* assignments to header[<timeout header>] in the two NewConn: %d, inside the onRequestSend callback: %d *)\n", b(setAtSend), nSets, nSetsInCallback)
+	p("Definition connect_unary_encoding_cleared_in_new_conn : bool := %s. (* delete(header, connectUnaryHeaderCompression) in connectClient.NewConn *)\n", b(encCleared))
+	p("Definition client_call_unary_stamps_spec_unconditionally : bool := %s. (* NewClient: callUnary's literal assigns request.spec at its top level *)\n", b(stamps))
+	p("Definition content_length_never_consulted : bool := %s. (* uses of .ContentLength / \"Content-Length\" in the sources: %d *)\n", b(clUses == 0), clUses)
 	p("Definition duplex_on_request_send_inside_once : bool := %s. (* onRequestSend called inside sendRequestOnce.Do before go makeRequest; calls elsewhere: %d *)\n", b(insideOnce), callsElsewhere)
 }
